@@ -172,7 +172,7 @@ package http2
 //@   assigns unrestricted, procLog, owedByBodies
 //@   ghostset procLog = procLog ++ seq[int]{0}
 //@   ensures procLog == old(procLog) ++ seq[int]{0}
-//@   ensures [C12:connection-credit-returned-for-every-byte-not-delivered-to-the-handler] connLedger(sc) == old(connLedger(sc)) && inflowOK(sc.inflow)
+//@   ensures [C12,C08:connection-credit-returned-for-every-byte-not-delivered-to-the-handler] connLedger(sc) == old(connLedger(sc)) && inflowOK(sc.inflow)
 //@   ensures [C08:request-body-bytes-go-to-the-body-pipe-of-their-stream-unaltered-and-to-no-other] forall p *pipe :: p != nil ==> p.fed == old(p.fed) || (old(mapHas(sc.streams, f.FrameHeader.StreamID)) && p == old(mapGet(sc.streams, f.FrameHeader.StreamID).body) && len(p.fed) - len(old(p.fed)) <= len(old(f.data)) && p.fed == old(p.fed) ++ old(f.data)[:len(p.fed) - len(old(p.fed))])
 //@   ensures [C08:accepted-data-is-delivered-in-full] old(mapHas(sc.streams, f.FrameHeader.StreamID)) && old(f.FrameHeader.StreamID) != 0 && old(dataAccepted(sc, mapGet(sc.streams, f.FrameHeader.StreamID), f)) ==> old(mapGet(sc.streams, f.FrameHeader.StreamID).body).fed == old(mapGet(sc.streams, f.FrameHeader.StreamID).body.fed) ++ old(f.data)
 //@   ensures [C08:received-body-count-advances-by-exactly-the-data-bytes] forall s *stream :: s != nil ==> s.bodyBytes == old(s.bodyBytes) || (old(mapHas(sc.streams, f.FrameHeader.StreamID)) && s == old(mapGet(sc.streams, f.FrameHeader.StreamID)) && s.bodyBytes == old(s.bodyBytes) + len(old(f.data)))
@@ -475,21 +475,21 @@ package http2
 //@   assigns unrestricted
 
 //@ func (*serverConn).noteBodyRead :: sc, st, n
-//@   props C12,C10
+//@   props C12,C10,C08
 //@   requires sc != nil && st != nil && inflowOK(sc.inflow) && inflowOK(st.inflow)
 //@   requires [C12:read-report-covers-bytes-owed] 0 <= n && n <= owedByBodies && connLedger(sc) <= 2147483647 && W(st.inflow) + n <= 2147483647
 //@   assigns unrestricted, owedByBodies
 //@   ghostset owedByBodies = owedByBodies - n
-//@   ensures [C12:bytes-read-by-the-handler-go-back-to-the-connection-window] connLedger(sc) == old(connLedger(sc)) && inflowOK(sc.inflow)
+//@   ensures [C12,C08:bytes-read-by-the-handler-go-back-to-the-connection-window] connLedger(sc) == old(connLedger(sc)) && inflowOK(sc.inflow)
 
 //@ func (*serverConn).closeStream :: sc, st, err
-//@   props C12,C13,C10
+//@   props C12,C13,C10,C08
 //@   requires sc != nil && st != nil && sc.streams != nil && sc.srv != nil && sc.writeSched != nil && st.cancelCtx != nil && inflowOK(sc.inflow)
 //@   requires [C13:only-open-streams-are-closed] st.state != 0 && st.state != 4
 //@   requires [C12:unread-body-bytes-are-owed] (st.body != nil ==> unreadOf(st.body) <= owedByBodies) && owedByBodies >= 0 && connLedger(sc) <= 2147483647
 //@   assigns unrestricted, owedByBodies
 //@   ghostset owedByBodies = owedByBodies - ite(old(st.body) != nil, unreadOf(old(st.body)), 0)
-//@   ensures [C12:unread-body-bytes-of-a-closed-stream-go-back-to-the-connection-window] connLedger(sc) == old(connLedger(sc)) && inflowOK(sc.inflow)
+//@   ensures [C12,C08:unread-body-bytes-of-a-closed-stream-go-back-to-the-connection-window] connLedger(sc) == old(connLedger(sc)) && inflowOK(sc.inflow)
 
 //@ -- C13: a HEADERS block whose pseudo-header fields are unknown, duplicated (anywhere in the block) or mix request
 //@ -- and response fields is malformed
